@@ -13,7 +13,7 @@ import (
 )
 
 func init() {
-	props["C05"] = &propDef{run: runC05, explanation: "Partial (thin): that the 377-line recursive-descent re-serialiser and the number formatter produce the RFC 8785 form for every I-JSON value (fixed point, value preservation, spelling independence) is value-level and NOT decided. Decided statically — the constants and tables the RFC fixes, each a necessary condition: (T1) the two escape tables hold the seven RFC 8785 two-character escapes pairwise aligned, and reader and writer index both tables with one loop variable; (K1) the writer emits the remaining control characters (< 0x20) with the format \\u%04x (lower-case hex) and the reader rejects raw control bytes inside strings; (K2) NumberToJSON rejects NaN/Infinity by the exponent mask 0x7ff0000000000000, maps ±0 to \"0\", and selects fixed notation exactly for 1e-6 ≤ |x| < 1e21; (P1) the member sort key is unicode/utf16.Encode of the runes of the parsed member name, the ordering function reads only sort keys, equal keys raise an error, and a preceding key is inserted before the compared element; (P2) MarshalCanonical hands every value to Transform (json.Marshal first unless it already is []byte); (K3) the whitespace set is {0x20,0x0a,0x0d,0x09} and the literal table {true,false,null}. (K2) every string-valued call the accepted number text depends on is strconv.FormatFloat; (P2) canonicalisation, hashing and commitment functions read no package-level state that changes after initialisation. A string token is emitted as writer(reader()) (P4). With no differing code unit the shorter sort key precedes, equal keys raise the duplicate error, a longer key does not precede (three orderings of the two lengths). (K4) the value of a \\uXXXX escape is the library's base-16 parse of its digits; (K3) no byte cut from a wider integer is written, every byte set that mentions whitespace holds all four whitespace characters. Nothing orders two strings as strings; scanner rules K5 (escape values uncompared, string bytes not through the ASCII-only reader, table searches found/not-found only, structural characters through the skipping scanner, position loops advance). (K5f) closed set of scanner refusals; (K5g) every exit of Transform behind the trailing-input loop; C19.A/B on the canonicalizer's functions. (K5h) per-level state of the recursion; (K5i) look-ahead restores the position; (K5j) string bytes read as they are."}
+	props["C05"] = &propDef{run: runC05, explanation: "Partial (thin): that the 377-line recursive-descent re-serialiser and the number formatter produce the RFC 8785 form for every I-JSON value (fixed point, value preservation, spelling independence) is value-level and NOT decided. Decided statically — the constants and tables the RFC fixes, each a necessary condition: (T1) the two escape tables hold the seven RFC 8785 two-character escapes pairwise aligned, and reader and writer index both tables with one loop variable; (K1) the writer emits the remaining control characters (< 0x20) with the format \\u%04x (lower-case hex) and the reader rejects raw control bytes inside strings; (K2) NumberToJSON rejects NaN/Infinity by the exponent mask 0x7ff0000000000000, maps ±0 to \"0\", and selects fixed notation exactly for 1e-6 ≤ |x| < 1e21; (P1) the member sort key is unicode/utf16.Encode of the runes of the parsed member name, the ordering function reads only sort keys, equal keys raise an error, and a preceding key is inserted before the compared element; (P2) MarshalCanonical hands every value to Transform (json.Marshal first unless it already is []byte); (K3) the whitespace set is {0x20,0x0a,0x0d,0x09} and the literal table {true,false,null}. (K2) every string-valued call the accepted number text depends on is strconv.FormatFloat; (P2) canonicalisation, hashing and commitment functions read no package-level state that changes after initialisation. A string token is emitted as writer(reader()) (P4). With no differing code unit the shorter sort key precedes, equal keys raise the duplicate error, a longer key does not precede (three orderings of the two lengths). (K4) the value of a \\uXXXX escape is the library's base-16 parse of its digits; (K3) no byte cut from a wider integer is written, every byte set that mentions whitespace holds all four whitespace characters. Nothing orders two strings as strings; scanner rules K5 (escape values uncompared, string bytes not through the ASCII-only reader, table searches found/not-found only, structural characters through the skipping scanner, position loops advance). (K5f) closed set of scanner refusals; (K5g) every exit of Transform behind the trailing-input loop; C19.A/B on the canonicalizer's functions. (K5h) per-level state of the recursion; (K5i) look-ahead restores the position; (K5j) string bytes read as they are. The \\uhhhh form is written for bytes below 0x20 only."}
 }
 
 // globalByteSlice: constants of a package-level []byte / []string literal initialised in init.
@@ -59,14 +59,31 @@ func (c *Ctx) globalSliceLiteral(g *ssa.Global) []string {
 	return out
 }
 
+// closuresOf: the function literals of f, nested ones included, and the functions of f's own package they call (a
+// literal that captures nothing may as well be written as a package-level function), with their literals
 func closuresOf(f *ssa.Function) []*ssa.Function {
 	var out []*ssa.Function
+	seen := map[*ssa.Function]bool{f: true}
 	var walk func(g *ssa.Function)
 	walk = func(g *ssa.Function) {
 		for _, a := range g.AnonFuncs {
-			out = append(out, a)
-			walk(a)
+			if !seen[a] {
+				seen[a] = true
+				out = append(out, a)
+				walk(a)
+			}
 		}
+		forEachInstr(g, func(in ssa.Instruction) {
+			cl, ok := in.(ssa.CallInstruction)
+			if !ok {
+				return
+			}
+			if h := cl.Common().StaticCallee(); h != nil && h.Pkg != nil && h.Pkg == f.Pkg && h.Parent() == nil && !seen[h] && len(h.Blocks) > 0 && h.Object() != nil && !h.Object().Exported() {
+				seen[h] = true
+				out = append(out, h)
+				walk(h)
+			}
+		})
 	}
 	walk(f)
 	return out
@@ -344,7 +361,7 @@ func (c *Ctx) jcsRules() {
 		for _, f := range cls {
 			forEachInstr(f, func(in ssa.Instruction) {
 				bo, ok := in.(*ssa.BinOp)
-				if !ok || bo.Op != token.LSS || c.Path(bo.Y, nil) != "32" {
+				if !ok || !((bo.Op == token.LSS && c.Path(bo.Y, nil) == "32") || (bo.Op == token.LEQ && c.Path(bo.Y, nil) == "31")) {
 					return
 				}
 				for _, e := range boolEdges(bo, true) {
@@ -364,6 +381,48 @@ func (c *Ctx) jcsRules() {
 					}
 				}
 			})
+		}
+		// … and only those: RFC 8785 writes every other character as it is (U+007F included), so each site of the
+		// \uhhhh form lies behind the test "< 0x20" on every way in
+		{
+			var wide []string
+			n := 0
+			for _, f := range cls {
+				forEachInstr(f, func(in ssa.Instruction) {
+					cl, isC := in.(*ssa.Call)
+					if !isC || cl.Call.StaticCallee() == nil || cl.Call.StaticCallee().String() != "fmt.Sprintf" || c.Path(cl.Call.Args[0], nil) != `"\\u%04x"` {
+						return
+					}
+					n++
+					isBehind := func(b *ssa.BasicBlock) bool {
+						for _, cnd := range c.condsOf(b) {
+							if strings.HasSuffix(cnd, " < 32)=true") || strings.HasSuffix(cnd, " <= 31)=true") || strings.HasSuffix(cnd, " >= 32)=false") || strings.HasSuffix(cnd, " > 31)=false") {
+								return true
+							}
+						}
+						return false
+					}
+					behind := isBehind(cl.Block())
+					if !behind {
+						// (the form written by a small helper: every call of the helper lies behind the test)
+						calls := 0
+						all := true
+						for _, g := range append([]*ssa.Function{tr}, cls...) {
+							for _, hc := range callsTo(g, f) {
+								calls++
+								if !isBehind(hc.Block()) {
+									all = false
+								}
+							}
+						}
+						behind = calls > 0 && all
+					}
+					if !behind {
+						wide = append(wide, c.pos(cl.Pos()))
+					}
+				})
+			}
+			c.Check("C05.K1", "writer:\\uhhhh-for-control-chars-only", n > 0 && len(wide) == 0, tr.Pos(), fmt.Sprintf("%d site(s) of the \\uhhhh form, each reached only for a byte < 0x20 (not so: %v)", n, wide))
 		}
 		c.Check("C05.K1", "writer:control-chars-as-\\u%04x", okW, tr.Pos(), "bytes < 0x20 without a two-character escape are written with fmt.Sprintf(\"\\\\u%04x\", c)")
 		c.Check("C05.K1", "reader:raw-control-bytes-rejected", okR, tr.Pos(), "a raw byte < 0x20 inside a string literal raises an error")
@@ -556,12 +615,62 @@ func (c *Ctx) jcsRules() {
 		nvT := c.NamedType(pJC, "nameValueType")
 		okKey := false
 		var cmpFn *ssa.Function
+		// (the name kept and ordered is the parsed one, not its written form: nothing the string writer produced flows
+		// into it — escapes and the quotes order differently from the characters they stand for)
+		var strWriter *ssa.Function
+		for _, f := range cls {
+			forEachInstr(f, func(in ssa.Instruction) {
+				if cl, ok := in.(*ssa.Call); ok && cl.Call.StaticCallee() != nil && cl.Call.StaticCallee().String() == "fmt.Sprintf" && c.Path(cl.Call.Args[0], nil) == `"\\u%04x"` {
+					strWriter = f
+				}
+			})
+		}
+		fromWriter := func(v ssa.Value) bool {
+			for w := range backSlice(v) {
+				if cl, ok := w.(*ssa.Call); ok && strWriter != nil {
+					if cl.Call.StaticCallee() == strWriter {
+						return true
+					}
+					// (a closure kept in a variable: the call goes through the cell that holds it)
+					if p := c.Path(cl.Call.Value, nil); strings.HasSuffix(p, strWriter.Name()) || strings.Contains(p, strWriter.Name()+")") {
+						return true
+					}
+				}
+			}
+			return false
+		}
 		for _, f := range cls {
 			for _, a := range allocsOf(f, nvT) {
 				ft := c.fieldTable(a, nil)
 				if len(ft["sortKey"]) == 1 && len(ft["name"]) == 1 {
 					if ft["sortKey"][0] == "unicode/utf16.Encode(conv<[]rune>("+ft["name"][0]+"))" {
-						okKey = true
+						okName := true
+						for _, fs := range storesInto(a) {
+							if fs.Field != "name" {
+								continue
+							}
+							if fromWriter(fs.Val) {
+								okName = false
+							}
+							// a constructor handed the name: judged at its call sites
+							if prm, isP := fs.Val.(*ssa.Parameter); isP {
+								for pi, fp := range f.Params {
+									if fp != prm {
+										continue
+									}
+									for _, g := range append([]*ssa.Function{tr}, cls...) {
+										for _, hc := range callsTo(g, f) {
+											if pi < len(hc.Call.Args) && fromWriter(hc.Call.Args[pi]) {
+												okName = false
+											}
+										}
+									}
+								}
+							}
+						}
+						if okName {
+							okKey = true
+						}
 					}
 				}
 			}
@@ -1991,14 +2100,34 @@ func (c *Ctx) jcsScannerRules(tr *ssa.Function) {
 				if f.Parent() == nil || f.Blocks == nil || len(callsOf(f, reader)) == 0 || len(naturalLoops(f)) == 0 || f == reader {
 					continue
 				}
-				for _, cl := range callsOf(f, raw) {
-					n++
-					okC := false
-					for _, cnd := range c.condsOf(cl.Block()) {
+				behindBackslash := func(b *ssa.BasicBlock) bool {
+					for _, cnd := range c.condsOf(b) {
 						if strings.HasSuffix(cnd, " == 92)=true") || strings.HasSuffix(cnd, " != 92)=false") || regexp.MustCompile(`^\(.* < .*\)=false$|^\(.* >= .*\)=true$|^\(.* <= .*\)=true$`).MatchString(cnd) && strings.Contains(cnd, "len(") {
-							okC = true
+							return true
 						}
 					}
+					return false
+				}
+				// (the handler of an escape sequence written as a closure of its own: every call of it lies behind the backslash)
+				sites, allBehind := 0, true
+				for _, g := range fns {
+					if g == f || g.Blocks == nil {
+						continue
+					}
+					for _, hc := range callsOf(g, f) {
+						sites++
+						if !behindBackslash(hc.Block()) {
+							allBehind = false
+						}
+					}
+				}
+				if sites > 0 && allBehind {
+					n += len(callsOf(f, raw))
+					continue
+				}
+				for _, cl := range callsOf(f, raw) {
+					n++
+					okC := behindBackslash(cl.Block())
 					if !okC {
 						bad = append(bad, fmt.Sprintf("%s: %s reads a byte of a string through the structural reader %s (not behind a backslash, not at the end of the input)", c.pos(cl.Pos()), f.Name(), raw.Name()))
 					}
